@@ -24,6 +24,8 @@ func firstTokenPlausible(d []byte) bool {
 // C01: Valid == model == encoding/json, for nil / fresh / long-lived buffers.
 func RunC01(c *Ctx) {
 	var long rjson.Buffer
+	deep := deepDirtyBuffer()
+	c.Rec.Max("max_stack_len_of_buffer_previously_used_by_handler_traversals", int64(stackLen(deep)))
 	fams := []string{"W1", "W3", "W4", "W2", "W5small"}
 	c.RunDocs(fams, func(cs *h.Case) {
 		d := cs.Input
@@ -43,7 +45,11 @@ func RunC01(c *Ctx) {
 			g0 := rjson.Valid(d, nil)
 			g1 := rjson.Valid(d, &fresh)
 			g2 := rjson.Valid(d, &long)
-			c.Rec.Evals(3)
+			g3 := rjson.Valid(d, deep)
+			c.Rec.Evals(4)
+			if g3 != m.Valid {
+				c.Rec.Violate(cs, "Valid(buffer previously used by deep handler traversals)!=model", "Valid", fmt.Sprint(m.Valid), fmt.Sprint(g3))
+			}
 			if g0 != m.Valid {
 				c.Rec.Violate(cs, "Valid(nil)!=model", "Valid", fmt.Sprint(m.Valid), fmt.Sprint(g0))
 			}
@@ -63,6 +69,7 @@ func RunC01(c *Ctx) {
 // C02: SkipValue == model (== json.Decoder), with nil and reused buffers.
 func RunC02(c *Ctx) {
 	var long rjson.Buffer
+	deep := deepDirtyBuffer()
 	fams := []string{"W1", "W1F", "W3", "W4", "W2", "W5small"}
 	c.RunDocs(fams, func(cs *h.Case) {
 		d := cs.Input
@@ -80,10 +87,10 @@ func RunC02(c *Ctx) {
 		}
 		c.Guarded(cs, "SkipValue", func() {
 			var fresh rjson.Buffer
-			for i, b := range []*rjson.Buffer{nil, &fresh, &long} {
+			for i, b := range []*rjson.Buffer{nil, &fresh, &long, deep} {
 				p, err := rjson.SkipValue(d, b)
 				c.Rec.Evals(1)
-				name := [...]string{"nil", "fresh", "reused"}[i]
+				name := [...]string{"nil", "fresh", "reused", "buffer previously used by deep handler traversals"}[i]
 				if (err == nil) != m.OK {
 					c.Rec.Violate(cs, "SkipValue("+name+") success!=model", "SkipValue", fmt.Sprintf("ok=%v", m.OK), fmt.Sprintf("p=%d err=%s", p, errStr(err)))
 				} else if m.OK && p != m.Node.End {
@@ -104,6 +111,7 @@ func RunC02(c *Ctx) {
 // C11: wherever SkipValue succeeds, SkipValueFast succeeds with the same offset.
 func RunC11(c *Ctx) {
 	var long rjson.Buffer
+	deep := deepDirtyBuffer()
 	fams := []string{"W1", "W1F", "W3", "W4", "W2", "W5small"}
 	c.RunDocs(fams, func(cs *h.Case) {
 		d := cs.Input
@@ -123,10 +131,10 @@ func RunC11(c *Ctx) {
 				c.Rec.C("with_bracket_quote_or_backslash_inside_string")
 			}
 			var fresh rjson.Buffer
-			for i, b := range []*rjson.Buffer{nil, &fresh, &long} {
+			for i, b := range []*rjson.Buffer{nil, &fresh, &long, deep} {
 				pf, errf := rjson.SkipValueFast(d, b)
 				c.Rec.Evals(1)
-				name := [...]string{"nil", "fresh", "reused"}[i]
+				name := [...]string{"nil", "fresh", "reused", "buffer previously used by deep handler traversals"}[i]
 				if errf != nil {
 					c.Rec.Violate(cs, "SkipValueFast("+name+") fails where SkipValue succeeds", "SkipValueFast", fmt.Sprintf("p=%d err=<nil>", p), fmt.Sprintf("p=%d err=%s", pf, errStr(errf)))
 				} else if pf != p {
